@@ -27,7 +27,7 @@ STR = 32
 
 
 def cases(tier):
-    return STR + (300 if tier == "quick" else 12000)
+    return STR + (2400 if tier == "quick" else 40000)
 
 
 def floors(tier):
